@@ -270,6 +270,7 @@ def vmdk_delta(rng, ctx, depth: int = 2, parent_config: str = "samedir", child_k
         layers.insert(0, layer)
         prev_name, prev_dir = name, here
     top = vmdir / prev_name
+    info["top_path"] = str(top)
     handles = []
     if child_kind == "embedded":
         fh = open(top, "rb")
